@@ -70,10 +70,15 @@ pub fn gp_stub(f: (&Altitude, &Altitude)) -> Option<cpr::Position> {
 
 pub fn hv_stub(a: (f64, f64), b: (f64, f64)) -> f64 {
     unsafe {
-        let k = (HV_CALLS as usize) % 2;
-        HV_ARGS[k] = (a, b);
+        let first = HV_CALLS == 0;
         HV_CALLS += 1;
-        HV_RET[k]
+        if first {
+            HV_ARGS[0] = (a, b);
+            HV_RET[0]
+        } else {
+            HV_ARGS[1] = (a, b);
+            HV_RET[1]
+        }
     }
 }
 
@@ -110,7 +115,7 @@ fn any_coor(s: &mut Src) -> AirplaneCoor {
     c
 }
 
-fn any_state(s: &mut Src, ctx: &mut Ctx) -> AirplaneState {
+fn any_state(s: &mut Src, ctx: &mut Ctx, track_some: bool) -> AirplaneState {
     let mut st = AirplaneState::default();
     st.coords = any_coor(s);
     st.num_messages = s.u32();
@@ -118,9 +123,14 @@ fn any_state(s: &mut Src, ctx: &mut Ctx) -> AirplaneState {
     st.heading = if s.bool() { Some(s.f64() as f32) } else { None };
     st.speed = if s.bool() { Some(s.f64() as f32) } else { None };
     st.vert_speed = if s.bool() { Some(s.u16() as i16) } else { None };
-    st.callsign = if s.bool() { Some(String::from("OLD")) } else { None };
-    st.track = if s.bool() { Some(Vec::new()) } else { None };
+    st.callsign = None;
+    st.track = if track_some { Some(Vec::new()) } else { None };
     st
+}
+
+/// equality of published values: IEEE equality (0.0 == -0.0) or identical bits (NaN)
+fn feq(a: f64, b: f64) -> bool {
+    a == b || a.to_bits() == b.to_bits()
 }
 
 fn coor_eq(a: &AirplaneCoor, b: &AirplaneCoor) -> bool {
@@ -135,14 +145,14 @@ fn coor_eq(a: &AirplaneCoor, b: &AirplaneCoor) -> bool {
     fn f_eq(x: &Option<f64>, y: &Option<f64>) -> bool {
         match (x, y) {
             (None, None) => true,
-            (Some(p), Some(q)) => p.to_bits() == q.to_bits(),
+            (Some(p), Some(q)) => feq(*p, *q),
             _ => false,
         }
     }
     fn p_eq(x: &Option<cpr::Position>, y: &Option<cpr::Position>) -> bool {
         match (x, y) {
             (None, None) => true,
-            (Some(p), Some(q)) => p.latitude.to_bits() == q.latitude.to_bits() && p.longitude.to_bits() == q.longitude.to_bits(),
+            (Some(p), Some(q)) => feq(p.latitude, q.latitude) && feq(p.longitude, q.longitude),
             _ => false,
         }
     }
@@ -216,9 +226,9 @@ pub fn obl_entry_or_insert(s: &mut Src, ctx: &mut Ctx, mask: u8, which: u8) {
 // ---------------------------------------------------------------------------------------------
 // L1/L2: one step of `action` on a fully symbolic record
 // ---------------------------------------------------------------------------------------------
-fn setup_ghost(s: &mut Src, ctx: &mut Ctx, key: ICAO) -> (AirplaneState, bool) {
+fn setup_ghost(s: &mut Src, ctx: &mut Ctx, key: ICAO, track_some: bool) -> (AirplaneState, bool) {
     let vacant = s.bool();
-    let st = if vacant { AirplaneState::default() } else { any_state(s, ctx) };
+    let st = if vacant { AirplaneState::default() } else { any_state(s, ctx, track_some) };
     let pre = st.clone();
     unsafe {
         G_KEY = key;
@@ -239,8 +249,8 @@ fn common_post(ctx: &mut Ctx, r: &Added, pre: &AirplaneState, vacant: bool) {
 }
 
 /// position report (C12, C13, C14 invariant)
-pub fn obl_action_position(s: &mut Src, ctx: &mut Ctx, df18: bool) {
-    let (pre, vacant) = setup_ghost(s, ctx, KA);
+pub fn obl_action_position(s: &mut Src, ctx: &mut Ctx, df18: bool, track_some: bool, level: u8) {
+    let (pre, vacant) = setup_ghost(s, ctx, KA, track_some);
     let odd = s.bool();
     let alt = any_alt(s, odd);
     let gnss = s.bool();
@@ -260,18 +270,25 @@ pub fn obl_action_position(s: &mut Src, ctx: &mut Ctx, df18: bool) {
     let r = a.action(frame, rx, range);
     common_post(ctx, &r, &pre, vacant);
     let post = unsafe { G_REC.as_ref().unwrap() };
-    let p = if odd { 1 } else { 0 };
-    // slots after storing the report
-    let mut slots = pre.coords.altitudes;
-    slots[p] = Some(alt);
+    // slots after storing the report (explicit branches: no symbolic indexing)
+    let slots: [Option<Altitude>; 2] = if odd { [pre.coords.altitudes[0], Some(alt)] } else { [Some(alt), pre.coords.altitudes[1]] };
     let both = slots[0].is_some() && slots[1].is_some();
     let (gpc, gpa, hvc, hva) = unsafe { (GP_CALLS, GP_ARGS, HV_CALLS, HV_ARGS) };
     let pc = &post.coords;
+    if level == 0 {
+        return;
+    }
     if !both {
+        if level == 2 {
+            return;
+        }
         vcheck!(ctx, gpc == 0, "[C13] no pairing is attempted before an even and an odd report are stored");
-        vcheck!(ctx, pc.altitudes[p] == Some(alt) && pc.altitudes[1 - p] == pre.coords.altitudes[1 - p], "[C13] a position report is stored in the slot of its parity, the other slot is kept");
+        vcheck!(ctx, pc.altitudes[0] == slots[0] && pc.altitudes[1] == slots[1], "[C13] a position report is stored in the slot of its parity, the other slot is kept");
         vcheck!(ctx, coor_eq(&AirplaneCoor { altitudes: pc.altitudes, ..pre.coords }, pc), "[C13] with a single stored report the published position and distance are unchanged");
     } else {
+        if level == 1 {
+            return;
+        }
         let (s0, s1) = (slots[0].unwrap(), slots[1].unwrap());
         vcheck!(ctx, gpc == 1 && matches!(gpa, Some((x, y)) if (x == s0 && y == s1) || (x == s1 && y == s0)), "[C13] the candidate position is one CPR pairing of exactly the most recent even and the most recent odd report");
         match gp {
@@ -279,7 +296,7 @@ pub fn obl_action_position(s: &mut Src, ctx: &mut Ctx, df18: bool) {
                 vcheck!(ctx, pc.position.is_none() && pc.kilo_distance.is_none(), "[C13] when the pairing yields no position nothing is published (no position, no distance)");
             }
             Some(c) => {
-                vcheck!(ctx, hvc >= 1 && hva[0].0 == rx && hva[0].1 .0.to_bits() == c.latitude.to_bits() && hva[0].1 .1.to_bits() == c.longitude.to_bits(), "[C13] the range check measures receiver -> candidate position");
+                vcheck!(ctx, hvc >= 1 && hva[0].0 .0.to_bits() == rx.0.to_bits() && hva[0].0 .1.to_bits() == rx.1.to_bits() && hva[0].1 .0.to_bits() == c.latitude.to_bits() && hva[0].1 .1.to_bits() == c.longitude.to_bits(), "[C13] the range check measures receiver -> candidate position");
                 if hv[0] > range {
                     vcheck!(ctx, coor_is_default(pc), "[C13] a candidate beyond the configured range clears the whole position record");
                 } else if let Some(q) = pre.coords.position {
@@ -287,18 +304,21 @@ pub fn obl_action_position(s: &mut Src, ctx: &mut Ctx, df18: bool) {
                     if hv[1] > 100.0 {
                         vcheck!(ctx, coor_is_default(pc), "[C13] a jump of more than 100 km clears the whole position record");
                     } else {
-                        vcheck!(ctx, matches!(pc.position, Some(x) if x.latitude.to_bits() == c.latitude.to_bits() && x.longitude.to_bits() == c.longitude.to_bits()), "[C13] a plausible candidate is published as the position");
-                        vcheck!(ctx, matches!(pc.kilo_distance, Some(d) if d.to_bits() == hv[0].to_bits()), "[C13] the reported distance is the receiver -> published position distance");
+                        vcheck!(ctx, matches!(pc.position, Some(x) if feq(x.latitude, c.latitude) && feq(x.longitude, c.longitude)), "[C13] a plausible candidate is published as the position");
+                        vcheck!(ctx, matches!(pc.kilo_distance, Some(d) if feq(d, hv[0])), "[C13] the reported distance is the receiver -> published position distance");
                         vcheck!(ctx, pc.altitudes[0] == Some(s0) && pc.altitudes[1] == Some(s1), "[C13] the paired reports stay stored");
                     }
                 } else {
                     vcheck!(ctx, hvc == 1, "[C13] without a previous position only the range is checked");
-                    vcheck!(ctx, matches!(pc.position, Some(x) if x.latitude.to_bits() == c.latitude.to_bits() && x.longitude.to_bits() == c.longitude.to_bits()), "[C13] a plausible candidate is published as the position");
-                    vcheck!(ctx, matches!(pc.kilo_distance, Some(d) if d.to_bits() == hv[0].to_bits()), "[C13] the reported distance is the receiver -> published position distance");
+                    vcheck!(ctx, matches!(pc.position, Some(x) if feq(x.latitude, c.latitude) && feq(x.longitude, c.longitude)), "[C13] a plausible candidate is published as the position");
+                    vcheck!(ctx, matches!(pc.kilo_distance, Some(d) if feq(d, hv[0])), "[C13] the reported distance is the receiver -> published position distance");
                     vcheck!(ctx, pc.altitudes[0] == Some(s0) && pc.altitudes[1] == Some(s1), "[C13] the paired reports stay stored");
                 }
             }
         }
+    }
+    if level < 4 {
+        return;
     }
     // representation invariant (C14): preserved by the step
     let inv_pre = pre.coords.kilo_distance.is_some() == pre.coords.position.is_some() && (pre.coords.position.is_none() || (pre.coords.altitudes[0].is_some() && pre.coords.altitudes[1].is_some()));
@@ -310,9 +330,11 @@ pub fn obl_action_position(s: &mut Src, ctx: &mut Ctx, df18: bool) {
     let tl_pre = pre.track.as_ref().map_or(0, |t| t.len());
     let tl_post = post.track.as_ref().map_or(0, |t| t.len());
     vcheck!(ctx, tl_post == tl_pre || tl_post == tl_pre + 1, "[C14] a position report extends the track by at most one entry");
-    if tl_post == tl_pre + 1 {
-        let last = post.track.as_ref().unwrap()[tl_post - 1];
-        vcheck!(ctx, coor_eq(&last, &pre.coords), "[C14] the entry appended to the track is the superseded record (its position is the previously published one)");
+    if tl_pre == 0 && tl_post == 1 {
+        if let Some(t) = post.track.as_ref() {
+            let last = t[0];
+            vcheck!(ctx, coor_eq(&last, &pre.coords), "[C14] the entry appended to the track is the superseded record (its position is the previously published one)");
+        }
     }
     // everything else untouched
     vcheck!(ctx, post.callsign == pre.callsign && post.vert_speed == pre.vert_speed && post.squawk == pre.squawk && post.on_ground == pre.on_ground, "[C14] a position report changes neither callsign nor velocity attributes");
@@ -322,7 +344,7 @@ pub fn obl_action_position(s: &mut Src, ctx: &mut Ctx, df18: bool) {
 
 /// identification report (C12, C14)
 pub fn obl_action_ident(s: &mut Src, ctx: &mut Ctx, df18: bool) {
-    let (pre, vacant) = setup_ghost(s, ctx, KA);
+    let (pre, vacant) = setup_ghost(s, ctx, KA, false);
     let id = Identification { tc: adsb_deku::adsb::TypeCoding::A, ca: s.u8() & 7, cn: String::from("NEW1") };
     let frame = mk_frame(df18, KA, KB, ME::AircraftIdentification(id));
     let mut a = Airplanes::new();
@@ -335,7 +357,7 @@ pub fn obl_action_ident(s: &mut Src, ctx: &mut Ctx, df18: bool) {
 
 /// velocity report (C12, C14); `calculate` is a ghost function
 pub fn obl_action_velocity(s: &mut Src, ctx: &mut Ctx, df18: bool) {
-    let (pre, vacant) = setup_ghost(s, ctx, KA);
+    let (pre, vacant) = setup_ghost(s, ctx, KA, false);
     let calc: Option<(f32, f64, i16)> = if s.bool() { Some((s.f64() as f32, s.f64(), s.u16() as i16)) } else { None };
     unsafe {
         CALC_RET = calc;
@@ -373,7 +395,7 @@ pub fn obl_action_velocity(s: &mut Src, ctx: &mut Ctx, df18: bool) {
 
 /// any other ME type in DF17/DF18: only the count changes
 pub fn obl_action_other_me(s: &mut Src, ctx: &mut Ctx, df18: bool) {
-    let (pre, vacant) = setup_ghost(s, ctx, KA);
+    let (pre, vacant) = setup_ghost(s, ctx, KA, false);
     let mut d = [0u8; 6];
     s.fill(&mut d);
     let me = if s.bool() { ME::NoPosition(d) } else { ME::AircraftOperationalCoordination(d) };
@@ -387,7 +409,7 @@ pub fn obl_action_other_me(s: &mut Src, ctx: &mut Ctx, df18: bool) {
 
 /// frames of other downlink formats change nothing (the map is never touched)
 pub fn obl_action_non_es(s: &mut Src, ctx: &mut Ctx) {
-    let (pre, vacant) = setup_ghost(s, ctx, KA);
+    let (pre, vacant) = setup_ghost(s, ctx, KA, false);
     let which = s.u8() % 4;
     let frame = match which {
         0 => Frame { df: DF::AllCallReply { capability: Capability::AG_AIRBORNE, icao: KA, p_icao: KA }, crc: s.u32() },
@@ -406,7 +428,7 @@ pub fn obl_action_non_es(s: &mut Src, ctx: &mut Ctx) {
 // ---------------------------------------------------------------------------------------------
 /// aircraft_details on a fully symbolic record (`get` replaced by the ghost map)
 pub fn obl_details(s: &mut Src, ctx: &mut Ctx) {
-    let (pre, vacant) = setup_ghost(s, ctx, KA);
+    let (pre, vacant) = setup_ghost(s, ctx, KA, false);
     let a = Airplanes::new();
     let d = a.aircraft_details(KA);
     let alt = pre.coords.altitude();
@@ -469,7 +491,7 @@ pub fn obl_incr_time(s: &mut Src, ctx: &mut Ctx) {
     unsafe {
         CLOCK = now;
     }
-    let (pre, vacant) = setup_ghost(s, ctx, KA);
+    let (pre, vacant) = setup_ghost(s, ctx, KA, false);
     let mut a = Airplanes::new();
     let r = a.incr_messages(KA);
     let post = unsafe { G_REC.as_ref().unwrap() };
